@@ -496,6 +496,9 @@ class CapStep(Ob):
         if self.subject == "known-other-class":
             pre_inst[s] = ["http://ex.org/D"]
             ex.add(cD.e >= 1)
+        elif self.subject == "class-is-tracked":       # the class IRI itself is a tracked instance of a metaclass (ontology + data in one file, punning)
+            pre_inst["http://ex.org/C"] = ["http://ex.org/D"]
+            ex.add(cD.e >= 1)
         elif self.subject == "known-same-class":
             pass
         inst = self.inst or RDF_TYPE
@@ -1089,6 +1092,7 @@ def obligations(prop, tier):
                 out.append(CapStep(mode, subject))
                 out.append(CapStep(mode, subject, inst="http://ex.org/isa"))
             out.append(CapStep(mode, "new", other_pred=True, inst="http://www.wikidata.org/prop/direct/P31"))
+            out.append(CapStep(mode, "class-is-tracked"))
             out.append(CapStep(mode, "new", other_pred=True))
     if prop == "C17":
         for inverse in (False, True):
